@@ -253,7 +253,9 @@ def gen_linsolve(rng, tier):
     cls = str(rng.choice(LS_CLASSES))
     st = str(rng.choice(["dense", "dense", "csc", "csr"]))
     n = int(rng.integers(1, 9))
-    A = matgen.make(rng, cls, n, cond=10 ** rng.uniform(0, 2.5), scale=10 ** rng.uniform(-1, 1))
+    # physical magnitudes: stiffness in Pa (1e11), loads in nN ... the adjoint identity is scale-invariant
+    ascale = 10 ** rng.uniform(-1, 1) if rng.random() < 0.7 else 10.0 ** rng.uniform(-4, 12)   # (below 1e-6: known finding K2 of C05)
+    A = matgen.make(rng, cls, n, cond=10 ** rng.uniform(0, 2.5), scale=ascale)
     cA = np.iscomplexobj(A)
     form = str(rng.choice(["v", "c1", "blk", "blkdep"]))
     k = {"v": None, "c1": 1, "blk": 3, "blkdep": 3}[form]
@@ -263,6 +265,8 @@ def gen_linsolve(rng, tier):
         b = b + 1j * rng.standard_normal(b.shape)
     if form == "blkdep":
         b[:, 2] = b[:, 0] - 2 * b[:, 1]
+    if rng.random() < 0.3:
+        b = b * 10.0 ** rng.uniform(-12, 12)
     sol = "auto"
     kw = {}
     tol = 1e-8
@@ -591,6 +595,8 @@ def gen_concat(rng, tier):
             a = rng.standard_normal(sh)
             if cplx and rng.random() < 0.5:
                 a = a + 1j * rng.standard_normal(sh)
+            if a.ndim >= 2 and rng.random() < 0.4:
+                a = np.asfortranarray(a) if rng.random() < 0.5 else np.ascontiguousarray(a.T).T     # column-major / transposed view
             x0.append(a)
     kinds = "-".join("f" if isinstance(x, float) else str(np.ndim(x)) for x in x0)
     return Cfg("ConcatSignal", f"ConcatSignal/{kinds}/cplx{cplx}", lambda: pym.ConcatSignal([_S(f"a{i}", x) for i, x in enumerate(x0)], pym.Signal("y")), x0)
